@@ -153,11 +153,27 @@ def recur_trace(tier, idx):
     return sw.run_recursive_trace(cfg, cfg['_tops'])
 
 
+def twin_trace(tier, idx):
+    """instance A's history when a second instance B of the same decorator shares its archive: B's write-backs are external archive
+    writes in A's history; compared with M3 like any other wrapper trace"""
+    import suite_wrapper as sw
+    r = rng('multi-twin', tier, idx)
+    cfg = sw.gen_cfg(r, 'quick', idx)
+    cfg.update(raising=[], keyerr=[], malformed=False, bystander=False, late_attach=False, longargs=False, nkeys=10, pre_mem=0, pre_arch=0)
+    if cfg['backend'] in ('plain', 'null') or cfg['backend'].startswith('bare'): cfg['backend'] = r.choice(['dict', 'file', 'dir', 'sql'])
+    if cfg['backend'] in sw.DISK_BACKENDS and cfg['keymap'] not in ('string', 'md5', 'string_nonflat'): cfg['keymap'] = 'string'
+    if cfg['keymap'] == 'hash': cfg['keymap'] = 'string'
+    cfg['_calls'] = [[r.randrange(2), r.randrange(10)] for _ in range(r.choice([20, 40]))]
+    return sw.run_twin_trace(cfg, cfg['_calls'])
+
+
 def work(a):
     tier, idx = a
     o = run_case(gen(tier, idx))
     if o['cfg']['scen'] == 'recur':
         o['trace'] = recur_trace(tier, idx)
+    elif o['cfg']['scen'] == 'twin':
+        o['trace'] = twin_trace(tier, idx)
     return o
 
 
@@ -179,15 +195,17 @@ def explore(prop, tier, offset=0):
     divs, mv, wtags, _ = rw._analyse(prop, trs) if prop in ('C01', 'C02', 'C05', 'C06', 'C07', 'C15') else ([], [], {}, 0)
     for d in divs: d['suite'] = 'multi'
     viols += [dict(v, recursive=True) for v in mv]
-    tags['recursive-trace'] = len(trs); tags['recursive-completions'] = sum(len(t['recs']) for t in trs); tags['recursive-evictions'] = wtags.get('evict', 0)
+    rt = [t for t in trs if t.get('recursive')]; tt = [t for t in trs if t.get('twin')]
+    tags['recursive-trace'] = len(rt); tags['recursive-completions'] = sum(len(t['recs']) for t in rt); tags['evictions-in-model-traces'] = wtags.get('evict', 0)
+    tags['twin-trace'] = len(tt); tags['twin-external-writes'] = sum(1 for t in tt for x in t['recs'] if x['op'][0] == 'extput')
     return dict(suite='multi', traces=n + len(trs), evaluations=n + sum(len(t['recs']) for t in trs), distinct_nontrivial=n, tags=dict(tags), divergences=divs, violations=viols, samples=[res[0]['cfg'], res[2]['cfg']],
-                errors=errors[:3], rule=RULE, required_tags=['recur', 'twin', 'unser', 'recursive-trace'], config_histogram=None)
+                errors=errors[:3], rule=RULE, required_tags=['recur', 'twin', 'unser', 'recursive-trace', 'twin-trace'], config_histogram=None)
 
 
 def replay(prop, obj):
     if obj.get('recursive'):
         import suite_wrapper as sw, run_wrapper as rw
-        t = sw.run_recursive_trace(obj['cfg'], obj['cfg']['_tops'])
+        t = sw.run_recursive_trace(obj['cfg'], obj['cfg']['_tops']) if '_tops' in obj['cfg'] else sw.run_twin_trace(obj['cfg'], obj['cfg']['_calls'])
         if t['err']: raise NoVerdict(t['err'])
         divs, mv, _, _ = rw._analyse(prop, [t])
         return dict(violations=[dict(prop=prop, sig=v['sig'], msg=v['msg'], i=v.get('i', 0)) for v in mv], divergence=divs[0]['detail'] if divs else None)
